@@ -271,7 +271,7 @@ func runCase(c *run.Ctx, o *run.Outcome) {
 // ---- Java projects
 
 var jopts = javagen.Opts{MinFiles: 3, MaxFiles: 7, MaxMethods: 12, MaxParams: 3, MaxFields: 4, Interfaces: true, Generics: true, Annotations: true, Ctors: true,
-	Bodies: true, MaxStmts: 6, MaxSites: 16, Lambdas: true, HotBias: 4, FieldsFirst: true}
+	Bodies: true, MaxStmts: 6, MaxSites: 16, Lambdas: true, HotBias: 4, FieldsFirst: true, SameNameTwoPkgs: true, ExoticNames: true}
 
 func controllerText(r *run.Rand, i int) string {
 	var sb strings.Builder
@@ -304,6 +304,9 @@ func buildJavaTree(c *run.Ctx, o *run.Outcome, dir string) (root string, ok bool
 		if n := len(f.Type.Methods()); n > maxM {
 			maxM = n
 		}
+		if len(f.AmbiguousNames) > 0 {
+			o.Count("files_using_a_simple_name_declared_in_two_other_packages", 1)
+		}
 	}
 	if _, err := common.WriteProject(dir, p); err != nil {
 		o.SetInconclusive("cannot write project")
@@ -328,6 +331,58 @@ func buildJavaTree(c *run.Ctx, o *run.Outcome, dir string) (root string, ok bool
 		path := filepath.Join(dir, "svc", fmt.Sprintf("Billing%dService.java", i))
 		os.MkdirAll(filepath.Dir(path), 0o755)
 		ioutil.WriteFile(path, []byte(sb.String()), 0o644)
+	}
+	// the same simple class name in 2-4 packages, used from another package through an on-demand import (or none):
+	// whichever class the tool attributes, it must be the same one in every execution
+	if r.Chance(2, 3) {
+		word := r.Pick([]string{"Formatter", "Codec", "Clock", "Registry"})
+		nSame := r.Range(2, 4)
+		for i := 0; i < nSame; i++ {
+			pk := fmt.Sprintf("com.acme.same.p%d", i)
+			text := fmt.Sprintf("package %s;\n\npublic class %s {\n    public String render%d(String in) { return in; }\n    public void reset() { }\n}\n", pk, word, i)
+			path := filepath.Join(dir, "same", fmt.Sprintf("p%d", i), word+".java")
+			os.MkdirAll(filepath.Dir(path), 0o755)
+			ioutil.WriteFile(path, []byte(text), 0o644)
+		}
+		for u := 0; u < r.Range(1, 2); u++ {
+			var sb strings.Builder
+			sb.WriteString("package com.acme.same.use;\n\n")
+			if r.Chance(3, 4) {
+				sb.WriteString(fmt.Sprintf("import com.acme.same.p%d.*;\n\n", r.Intn(nSame)))
+			}
+			sb.WriteString(fmt.Sprintf("public class Printer%d", u))
+			if r.Bool() {
+				sb.WriteString(" extends " + word)
+			}
+			sb.WriteString(" {\n    private " + word + " shared;\n")
+			sb.WriteString("    public String print(" + word + " given, String text) {\n        " + word + " local = new " + word + "();\n        local.reset();\n        given.reset();\n        shared.reset();\n        return text;\n    }\n}\n")
+			path := filepath.Join(dir, "same", "use", fmt.Sprintf("Printer%d.java", u))
+			os.MkdirAll(filepath.Dir(path), 0o755)
+			ioutil.WriteFile(path, []byte(sb.String()), 0o644)
+		}
+		o.Count("projects_with_one_simple_class_name_in_several_packages_used_from_another", 1)
+	}
+	// a generated-looking class with 70-110 methods of pairwise different parameter counts (6..): one sized bad-smell
+	// kind with many findings whose sizes are untied, written in shuffled order (`bs -s type` must order them all)
+	if r.Chance(2, 3) {
+		nWide := r.Range(70, 110)
+		var sb strings.Builder
+		sb.WriteString("package com.acme.gen;\n\npublic class WideFacade {\n")
+		for _, k := range r.Perm(nWide) {
+			sb.WriteString(fmt.Sprintf("    public void call%d(", k))
+			for a := 0; a < 6+k; a++ {
+				if a > 0 {
+					sb.WriteString(", ")
+				}
+				sb.WriteString(fmt.Sprintf("int a%d", a))
+			}
+			sb.WriteString(") { }\n")
+		}
+		sb.WriteString("}\n")
+		path := filepath.Join(dir, "gen", "WideFacade.java")
+		os.MkdirAll(filepath.Dir(path), 0o755)
+		ioutil.WriteFile(path, []byte(sb.String()), 0o644)
+		o.Count("projects_with_a_sized_smell_kind_of_70+_untied_findings", 1)
 	}
 	tt := testsmellgen.Generate(r.Fork())
 	for _, f := range tt.Files {
@@ -640,6 +695,20 @@ func archCase(c *run.Ctx, o *run.Outcome) {
 	o.Count("arch_model_cases", 1)
 	o.Shape = run.ShapeHash("arch", len(m.Types))
 	o.NonTrivial = len(m.Types) >= 6
+	// `coca arch -x WORD[,WORD]` includes a node when its key contains one of the words: words that occur in some class
+	// names (and maybe in no package name), alone and together with a package prefix
+	ft := m.Types[c.Rng.Intn(len(m.Types))]
+	filters := [][]string{{ft.Name}, {ft.Name, m.Types[c.Rng.Intn(len(m.Types))].Pkg}}
+	contains := func(words []string) func(string) bool {
+		return func(key string) bool {
+			for _, w := range words {
+				if strings.Contains(key, w) {
+					return true
+				}
+			}
+			return false
+		}
+	}
 	var runs []observation
 	for i := 0; i < n; i++ {
 		ob := observation{}
@@ -661,6 +730,9 @@ func archCase(c *run.Ctx, o *run.Outcome) {
 				sort.Strings(rels)
 				ob["merged by "+merge.name+": nodes+relations"] = strings.Join(nodes, ",") + " | " + strings.Join(rels, ",")
 				ob["merged by "+merge.name+": dot"] = archDotCanon(mg.ToMapDot(func(string) bool { return true }).String())
+				for fi, words := range filters {
+					ob[fmt.Sprintf("merged by %s: dot filtered by -x word set %d", merge.name, fi)] = archDotCanon(mg.ToMapDot(contains(words)).String())
+				}
 				var fanRows, fanKeys, fanIDs []string
 				for _, f := range g.SortedByFan(merge.f) {
 					fanRows = append(fanRows, fmt.Sprintf("%s in=%d out=%d", f.Name, f.FanIn, f.FanOut))
@@ -672,6 +744,9 @@ func archCase(c *run.Ctx, o *run.Outcome) {
 				ob["fan table by "+merge.name+": order (untied totals)"] = untied(fanKeys, fanIDs)
 			}
 			ob["type graph dot"] = archDotCanon(g.ToMapDot(func(string) bool { return true }).String())
+			for fi, words := range filters {
+				ob[fmt.Sprintf("type graph dot filtered by -x word set %d", fi)] = archDotCanon(g.ToMapDot(contains(words)).String())
+			}
 		})
 		if panicked {
 			o.SetInconclusive("architecture analysis panicked @" + site + ": " + val + " (C13's business)")
